@@ -327,12 +327,34 @@ func scriptSandbox(args []string) int {
 			"result": v.String(), "probe": strings.Join(uniq, " | ")})
 		nrec++
 	}
+	// EVALRO can never modify data - also not by overwriting the global that names the variant its calls run as
+	for i, src := range []string{
+		"EVAL_CMD = 'eval' return tile38.call('SET', 'roattack', 'a%d', 'POINT', 1, 1)",
+		"EVAL_CMD = 'evalsha' return tile38.pcall('SET', 'roattack', 'a%d', 'POINT', 1, 1)",
+		"local ok = pcall(function() EVAL_CMD = 'eval' end) return tile38.call('SET', 'roattack', 'a%d', 'POINT', 1, 1)",
+	} {
+		c := conns[0]
+		src = fmt.Sprintf(src, i)
+		v, err := c.Do("EVALRO", src, "0")
+		if err != nil {
+			fmt.Fprintln(os.Stderr, err)
+			return 2
+		}
+		ex, err := conns[1].Do("EXISTS", "roattack", fmt.Sprintf("a%d", i))
+		if err != nil {
+			fmt.Fprintln(os.Stderr, err)
+			return 2
+		}
+		enc.Encode(map[string]interface{}{"e": "attack", "phase": "during", "state": 0, "names": []string{}, "script": fmt.Sprintf("evalro-switches-dispatch-%d", i),
+			"result": v.String(), "probe": ex.String(), "source": src})
+		nrec++
+	}
 	snapshot("after")
 	for _, c := range conns {
 		c.Close()
 	}
 	var buf bytes.Buffer
 	_ = buf
-	emit(map[string]interface{}{"records": nrec, "attacks": len(adversarial), "states": len(srv.S.VerifLuaGlobals())})
+	emit(map[string]interface{}{"records": nrec, "attacks": len(adversarial) + 3, "states": len(srv.S.VerifLuaGlobals())})
 	return 0
 }
